@@ -1,3 +1,5 @@
+//go:build !c36small
+
 package main
 
 // In-memory implementation of s3backend.S3 (TRUSTED BASE of the listing part;
